@@ -461,6 +461,7 @@ func runRollout(r *vs.Rand, i int, seed uint64, out *vs.Out, crash bool) {
 	}
 	sc := newCleanScenario(cfg, replicas, "v1", hookMode)
 	defer sc.w.close()
+	revListDesc = r.Bool() // the order in which the lister hands out the revisions
 	if cfg.GenerateSelector && r.Chance(50) {
 		// with selector generation the children need no labels of their own: the hook returns them without any
 		sc.w.sim.Mutate(parentGroup, cfg.parentResource(), nsOfKey(sc.key), "p1", func(o map[string]interface{}) {
